@@ -225,6 +225,9 @@ func parseB2Proposal(line string, prop *Proposal) (err error) {
 			return errors.New(fmt.Sprintf(`Too many parts in proposal: %+v`, parts))
 		}
 	}
+	if prop.size < 0 || prop.compressedSize < 0 {
+		return errors.New(`Malformed proposal: negative size`)
+	}
 	return
 }
 
